@@ -153,6 +153,58 @@ Proof.
   split; [apply perm_swap|vm_compute; discriminate].
 Qed.
 
+(* ------------------------------------------------------------------ call sites: Sidecars, policies *)
+
+(* whatever sorted permutation the (unstable) sorter returned, for whatever listing order of the store *)
+Lemma sidecars_order l l' o o' :
+  Permutation l l' -> cfg_key_unique l ->
+  sortedb cfg_cmp o = true -> Permutation o l ->
+  sortedb cfg_cmp o' = true -> Permutation o' l' ->
+  sidecar_partition o = sidecar_partition o' /\
+  sidecar_partition o = sidecar_order l /\
+  forall pns root ms, choose_in pns root ms (sidecar_partition o) = choose_in pns root ms (sidecar_partition o').
+Proof.
+  intros P U So Po So' Po'.
+  destruct (configs_order l l' o o' P U So Po So' Po') as [E1 E2].
+  split; [rewrite E1; reflexivity|]. split; [unfold sidecar_order; rewrite E2; reflexivity|].
+  intros. rewrite E1. reflexivity.
+Qed.
+
+Lemma sidecar_choice_order l l' pns root ms :
+  Permutation l l' -> cfg_key_unique l -> choose_sidecar pns root ms l = choose_sidecar pns root ms l'.
+Proof.
+  intros P U. unfold choose_sidecar, sidecar_order, sort_configs.
+  rewrite (sort_perm_invariant cfg_cmp wo_cfg l l' P (cfg_separates l U)). reflexivity.
+Qed.
+
+(* without the name/namespace tie-break (a sort keyed on selector and creation time only) the choice follows
+   the listing order: the witness of seeded change C17-2, as a statement about the weaker rule *)
+Definition weak_sidecar_cmp : cfg -> cfg -> comparison :=
+  lex (on (fun c => negb (c_sel c)) bool_cmp) (on c_time Z.compare).
+
+Lemma weak_sidecar_rule_order_dependent :
+  exists l l', Permutation l l' /\ cfg_key_unique l /\
+    choose_in "app" "istio-system" [1%N; 2%N] (isort weak_sidecar_cmp l) <>
+    choose_in "app" "istio-system" [1%N; 2%N] (isort weak_sidecar_cmp l').
+Proof.
+  exists [MkCfg 1 7 "by-app" "app" true; MkCfg 2 7 "by-version" "app" true],
+         [MkCfg 2 7 "by-version" "app" true; MkCfg 1 7 "by-app" "app" true].
+  split; [apply perm_swap|]. split.
+  - intros x y [<-|[<-|[]]] [<-|[<-|[]]]; cbn; intros; try reflexivity; discriminate.
+  - vm_compute. discriminate.
+Qed.
+
+Lemma callsite_order_inv kind nss l l' o o' :
+  Permutation l l' -> cfg_key_unique l ->
+  sortedb cfg_cmp o = true -> Permutation o l ->
+  sortedb cfg_cmp o' = true -> Permutation o' l' ->
+  callsite_in kind nss o = callsite_in kind nss o' /\ callsite_in kind nss o = callsite_order kind nss l.
+Proof.
+  intros P U So Po So' Po'.
+  destruct (configs_order l l' o o' P U So Po So' Po') as [E1 E2].
+  split; [rewrite E1; reflexivity|]. unfold callsite_order. rewrite E2. reflexivity.
+Qed.
+
 (* ------------------------------------------------------------------ shard keys *)
 
 Lemma shard_cmp_lex a b : shard_cmp a b = lex (on fst String.compare) (on snd String.compare) a b.
